@@ -127,7 +127,7 @@ func main() {
 		NewImpl: newImpl,
 		Gen:     gen,
 		Canon:   canon,
-		Count:   map[string]int{"quick": 3000, "thorough": 120000},
+		Count:   map[string]int{"quick": 15000, "thorough": 300000},
 		Extra: func() map[string]any {
 			names := make([]string, 0, len(perType))
 			for n := range perType {
